@@ -191,3 +191,27 @@ package runner
 //@ (assert (>= cap1 0))                                ; monitor invariant after my critical section
 //@ (assert (not (and (= (+ cap1 heldme1 heldothers) N) (<= (+ heldme1 heldothers) N))))
 //@ >>>
+
+// C04: a target is run at most once. The run goroutine is spawned only by the holder of the
+// token created by the idle->running transition; status is monotone, so that transition happens
+// at most once per target object; getTarget yields one object per label.
+//@ lemma C04-once int <<<
+//@ ; two idle->running transitions of one target cannot both happen: status is monotone (guarantee mono)
+//@ (declare-const s0 Int) (declare-const s1 Int) (declare-const s2 Int) (declare-const s3 Int)
+//@ (assert (and (<= s0 s1) (<= s1 s2) (<= s2 s3)))     ; successive critical sections (mono)
+//@ (assert (and (= s0 0) (= s1 1)))                    ; first transition idle->running
+//@ (assert (and (= s2 0) (= s3 1)))                    ; a second one later
+//@ >>>
+
+// C05: with the contracts of check/checkDeps (error ==> reach(dep, root)) and publication
+// (req(root, t) for every t passed to checkDeps by EvaluateTargets), a cyclic error reported for
+// root means root lies on a request cycle; for an acyclic request graph no such error exists.
+//@ lemma C05-acyclic int <<<
+//@ (declare-const root Ref) (declare-const t Ref)
+//@ (declare-fun rank (Ref) Int)                        ; acyclic request graph: a topological rank
+//@ (assert (forall ((a Ref) (b Ref)) (! (=> (req a b) (< (rank b) (rank a))) :pattern ((req a b)))))
+//@ ; reach is the least relation closed under the two axioms, so it respects rank:
+//@ (assert (forall ((a Ref) (b Ref)) (! (=> (reach a b) (<= (rank b) (rank a))) :pattern ((reach a b)))))
+//@ (assert (req root t))                               ; t was published by root
+//@ (assert (reach t root))                             ; checkDeps reported an error for t
+//@ >>>
